@@ -92,12 +92,12 @@ fn table_len0() {
 // by a JUMPDEST, and PUSH1/PUSH2/PUSH31/PUSH32 truncated by the end of the code (data runs into the padding).
 const JD: u8 = 0x5b;
 
-/// PUSH1 d JUMPDEST
+/// PUSH0 DUP1 PUSH1 d JUMPDEST  (0x5f and 0x80 are the opcodes adjacent to the PUSH1..PUSH32 range: no immediate data)
 #[kani::proof]
-#[kani::unwind(39)]
+#[kani::unwind(41)]
 fn shape_push1_data() {
     let d: u8 = kani::any();
-    check::<3>([0x60, d, JD], 2);
+    check::<5>([0x5f, 0x80, 0x60, d, JD], 4);
 }
 /// JUMPDEST PUSH2 d d JUMPDEST
 #[kani::proof]
